@@ -16,6 +16,9 @@ pub fn dispatch(f: &[&str]) -> String {
         "with_prec" => f_dec(&p_dec(f[1]).with_prec(f[2].parse().unwrap())),
         "prec_round" => prec_round(f[1], f[2], f[3], f[4], f[5]),
         "ctx_add" => ctx_add(f[1], f[2], f[3], f[4], f[5], f[6], f[7]),
+        "digits" => { let x = p_dec(f[2]); if f[1] == "digits" { x.digits().to_string() } else { x.to_ref().count_digits().to_string() } }
+        "accessors" => accessors(f[1]),
+        "to_owned_with_scale" => f_dec(&p_dec(f[1]).to_ref().to_owned_with_scale(f[2].parse().unwrap())),
         "to_prim" => to_prim(f[1], f[2], f[3]),
         "to_bigint" => match p_dec(f[1]).to_bigint() { Some(v) => v.to_string(), None => "None".to_string() },
         "is_integer" => p_dec(f[1]).is_integer().to_string(),
@@ -170,4 +173,30 @@ fn ctx_add(kind: &str, fa: &str, fb: &str, a: &str, b: &str, p: &str, mode: &str
         _ => return "UNKNOWN-CTX-ADD".to_string(),
     };
     f_dec(&r)
+}
+
+fn accessors(a: &str) -> String {
+    let x = p_dec(a);
+    let k = a.rfind(':').unwrap();
+    let i = p_big(&a[..k]);
+    let s: i64 = a[k + 1..].parse().unwrap();
+    let mut bad: Vec<&str> = vec![];
+    if x.fractional_digit_count() != s { bad.push("fractional_digit_count"); }
+    if x.as_bigint_and_exponent() != (i.clone(), s) { bad.push("as_bigint_and_exponent"); }
+    { let (c, sc) = x.as_bigint_and_scale(); if *c != i || sc != s { bad.push("as_bigint_and_scale"); } }
+    if x.clone().into_bigint_and_scale() != (i.clone(), s) { bad.push("into_bigint_and_scale"); }
+    if x.clone().into_bigint_and_exponent() != (i.clone(), s) { bad.push("into_bigint_and_exponent"); }
+    if x.sign() != i.sign() { bad.push("sign"); }
+    let r = x.to_ref();
+    if r.sign() != i.sign() { bad.push("ref sign"); }
+    if r.fractional_digit_count() != s { bad.push("ref fractional_digit_count"); }
+    if r.is_zero() != (i.sign() == num_bigint::Sign::NoSign) { bad.push("ref is_zero"); }
+    if r.to_owned().as_bigint_and_exponent() != (i.clone(), s) { bad.push("to_owned"); }
+    let mut d = BigDecimal::from(777);
+    r.clone_into(&mut d);
+    if d.as_bigint_and_exponent() != (i.clone(), s) { bad.push("clone_into"); }
+    if r.abs().to_owned().as_bigint_and_exponent() != (num_traits::Signed::abs(&i), s) { bad.push("ref abs"); }
+    if BigDecimal::new(i.clone(), s).as_bigint_and_exponent() != (i.clone(), s) { bad.push("new"); }
+    if BigDecimal::from_bigint(i.clone(), s).as_bigint_and_exponent() != (i.clone(), s) { bad.push("from_bigint"); }
+    if bad.is_empty() { "ok".to_string() } else { bad.join(",") }
 }
